@@ -146,6 +146,11 @@ func w2Gen(r *rand.Rand, prop, tier string) *simrt.Case {
 			switch r.IntN(5) {
 			case 0:
 				c.Program = append(c.Program, simrt.Op{Actor: m, Kind: "leave"}, simrt.Op{Actor: m, Kind: "cycle", A: g, B: mask(), C: iters / 2, D: think})
+				if r.IntN(2) == 0 {
+					// the LeaveGroup of the identity it left with arrives once more (a retry that was
+					// delayed), while the group is working in a later generation
+					c.Program = append(c.Program, simrt.Op{Actor: m, Kind: "stale-leave"}, simrt.Op{Actor: m, Kind: "cycle", A: g, B: mask(), C: iters / 2, D: think})
+				}
 			case 1: // change subscription while staying in the group
 				c.Program = append(c.Program, simrt.Op{Actor: m, Kind: "join", A: g, B: mask(), C: session, D: cfg["rebalance_ms"]}, simrt.Op{Actor: m, Kind: "sync"}, simrt.Op{Actor: m, Kind: "cycle", A: g, B: mask(), C: iters / 2, D: think})
 			case 2:
